@@ -119,6 +119,7 @@ type VC struct {
 	noEmit       int // >0: side facts are dropped (translating the body of an fpred)
 	fpreds       map[string]*fpredDef
 	fpredUses    []*PredSpec
+	alias        map[string]string // symbol -> the symbol it is a copy of
 	keepHeaps    map[string]bool // storages surviving the havoc in progress
 	preserveSelf map[string]bool // storages the function under verification promises to preserve
 	declLog  []string
@@ -293,6 +294,14 @@ func (vc *VC) define(hint, sort, term string) string {
 	name := fmt.Sprintf("%s!%d", sanitize(hint), vc.nfresh)
 	switch sort {
 	case "Int", "Slice", "Iface", "Str":
+		if !strings.ContainsAny(term, "( ") {
+			// a plain copy of another symbol: remember it, so that two loads
+			// of one variable are recognised as the same lock owner
+			if vc.alias == nil {
+				vc.alias = map[string]string{}
+			}
+			vc.alias[name] = vc.canon(term)
+		}
 		// atomic constants (not macros) keep index terms in the syntactic shape
 		// that quantifier triggers need
 		vc.push(fmt.Sprintf("(declare-const %s %s)", name, sort))
@@ -432,7 +441,21 @@ func (vc *VC) get(name, sort string) string {
 	return vc.getIn(vc.st, name, sort)
 }
 
+// ensureSorts declares the opaque sorts mentioned in a sort expression that
+// was remembered from another function's translation.
+func (vc *VC) ensureSorts(sort string) {
+	if !strings.Contains(sort, "O_") {
+		return
+	}
+	for _, tok := range strings.FieldsFunc(sort, func(r rune) bool { return r == '(' || r == ')' || r == ' ' }) {
+		if strings.HasPrefix(tok, "O_") && !vc.declared[tok] {
+			vc.declare(tok, "(declare-sort "+tok+" 0)")
+		}
+	}
+}
+
 func (vc *VC) entryVersion(name, sort string) string {
+	vc.ensureSorts(sort)
 	c := name + "@0"
 	if !vc.declared[c] {
 		vc.declare(c, fmt.Sprintf("(declare-const %s %s)", c, sort))
@@ -465,6 +488,7 @@ func (vc *VC) getIn(st *State, name, sort string) string {
 	}
 	vc.recordSort(name, sort)
 	if st.epoch != "" && heapLike(name) && !vc.immutableHeaps()[name] {
+		vc.ensureSorts(sort)
 		c := name + "@" + st.epoch
 		if !vc.declared[c] {
 			vc.declare(c, fmt.Sprintf("(declare-const %s %s)", c, sort))
@@ -498,6 +522,7 @@ func (vc *VC) recordSort(name, sort string) {
 }
 
 func (vc *VC) havocStorage(name, sort string) {
+	vc.ensureSorts(sort)
 	vc.st.m[name] = vc.fresh(name, sort)
 	vc.recordSort(name, sort)
 }
@@ -857,4 +882,16 @@ func shortFuncName(fn *ssa.Function) string {
 	s = strings.ReplaceAll(s, "github.com/AdguardTeam/", "")
 	s = strings.ReplaceAll(s, "github.com/", "")
 	return s
+}
+
+// canon follows the copy chain of a symbol.
+func (vc *VC) canon(t string) string {
+	for i := 0; i < 20; i++ {
+		a, ok := vc.alias[t]
+		if !ok {
+			return t
+		}
+		t = a
+	}
+	return t
 }
